@@ -4,18 +4,59 @@ NAME_POOL = ["a", "b", "ab", "A", "a.b", "a*", "x?", "[a]", "a+b", "(c)", "c\\d"
              "0", "1", "0.0", "False", "True"]       # also stored as the non-string objects that print like this
 ASCII_POOL = [n for n in NAME_POOL if all(ord(ch) < 128 for ch in n)]
 
+# The non-ASCII letters of the model's alphabet (lean/Anytree/Model/Str.lean, `caseTable`): character -> (str.upper(), representative
+# under re.IGNORECASE).  The three *signs* (KELVIN, ANGSTROM, OHM) are their own upper case but fold to k / å / ω under re.IGNORECASE:
+# there `get` (str.upper) and `glob` (re.IGNORECASE) compare differently.  The `casetable` case of C08 checks the table against the
+# running interpreter through the library (every character against every character).
+CASE_TABLE = {
+    "\u212a": ("\u212a", "k"), "\u017f": ("S", "s"), "\u0131": ("I", "i"),
+    "\u00b5": ("\u039c", "\u03bc"), "\u03bc": ("\u039c", "\u03bc"), "\u039c": ("\u039c", "\u03bc"),
+    "\u212b": ("\u212b", "\u00e5"), "\u00e5": ("\u00c5", "\u00e5"), "\u00c5": ("\u00c5", "\u00e5"),
+    "\u00e9": ("\u00c9", "\u00e9"), "\u00c9": ("\u00c9", "\u00e9"),
+    "\u2126": ("\u2126", "\u03c9"), "\u03c9": ("\u03a9", "\u03c9"), "\u03a9": ("\u03a9", "\u03c9"),
+}
+SIGNS = "\u212a\u212b\u2126"
+# names for ignorecase runs: ASCII names, their relatives over the table, and names differing only by such letters
+IC_POOL = ASCII_POOL + ["k", "K", "\u212a", "s", "S", "\u017f", "i", "I", "\u0131", "\u00b5", "\u03bc", "\u039c", "\u212b", "\u00e5", "\u00c5",
+                        "\u00e9", "\u00c9", "\u2126", "\u03c9", "\u03a9", "ok", "O\u212a", "OK", "a\u017f", "as", "AS", "\u00b5m", "\u03bcm",
+                        "\u212bb", "\u00e5b", "\u2126.", "\u03c9."]
 
-def names_for(rng, t, sep, unique, ic, allow_dups):
+
+def in_alphabet(s):
+    return all(ord(ch) < 128 or ch in CASE_TABLE for ch in s)
+
+
+def re_key(s):
+    """representative of s under re.IGNORECASE, character by character (the model's `reKey`)"""
+    return "".join(ch.lower() if ord(ch) < 128 else CASE_TABLE.get(ch, (ch, ch))[1] for ch in s)
+
+
+def regular(s):
+    """no KELVIN/ANGSTROM/OHM sign: str.upper() and re.IGNORECASE agree on such strings (CaseFold.caseRegular_regularAlphabet)"""
+    return in_alphabet(s) and not any(ch in SIGNS for ch in s)
+
+
+def _classmates(ch):
+    out = {ch, ch.upper() if len(ch.upper()) == 1 else ch, ch.lower() if len(ch.lower()) == 1 else ch}
+    k = re_key(ch)
+    out |= {x for x in CASE_TABLE if CASE_TABLE[x][1] == k or CASE_TABLE[x][0] == ch.upper()}
+    out |= {x for x in (k, k.upper()) if len(x) == 1}
+    return sorted(out)
+
+
+def names_for(rng, t, sep, unique, ic, allow_dups, key="upper"):
+    """`key`: the comparison under which `unique` names differ when `ic` - "upper" (what get compares) or "re" (what glob matches)"""
     labs = gen.tree_labels(t)
-    pool = [n for n in (ASCII_POOL if ic else NAME_POOL) if sep not in n]
+    pool = [n for n in ((IC_POOL if rng.random() < 0.6 else ASCII_POOL) if ic else NAME_POOL) if sep not in n]
     names = {}
+    fold = (lambda x: x.upper()) if key == "upper" else re_key
 
     def walk(node):
         used = set()
         for c in node[1]:
             for _ in range(50):
                 nm = rng.choice(pool)
-                key = nm.upper() if ic else nm
+                key = fold(nm) if ic else nm
                 if not unique or key not in used:
                     break
             used.add(key)
@@ -81,15 +122,35 @@ def rel_path(t, names, sep, m, n):
     return sep.join(parts)
 
 
+def sibling_unique(t, names, ic, key="upper"):
+    """are sibling names pairwise different (under str.upper() or the model's re.IGNORECASE key when `ic`)?"""
+    nm = {k: v for k, v in names}
+    fold = (lambda x: x.upper()) if key == "upper" else re_key
+
+    def ok(node):
+        seen = set()
+        for c in node[1]:
+            n = nm.get(c[0], "None")
+            n = fold(n) if ic else n
+            if n in seen:
+                return False
+            seen.add(n)
+        return all(ok(c) for c in node[1])
+    return ok(t)
+
+
 def names_ok(names, sep):
     return all(v not in ("", ".", "..", "**") and sep not in v and "*" not in v and "?" not in v for _, v in names)
 
 
 def _recase(rng, nm):
-    """the same name in another spelling of its ASCII letters (what `ignorecase` is about)"""
-    if not all(ord(ch) < 128 for ch in nm):
+    """the same name in another spelling of its letters (what `ignorecase` is about): ASCII case changes, and for the letters of the
+    table another member of the character's class under str.upper() or re.IGNORECASE (k / K / KELVIN SIGN ...)"""
+    if not in_alphabet(nm):
         return nm
-    return rng.choice([nm.swapcase(), nm.upper(), nm.lower(), nm.capitalize()])
+    if all(ord(ch) < 128 for ch in nm) and rng.random() < 0.7:
+        return rng.choice([nm.swapcase(), nm.upper(), nm.lower(), nm.capitalize()])
+    return "".join(rng.choice(_classmates(ch)) if ch.isalpha() and rng.random() < 0.7 else ch for ch in nm)
 
 
 def random_component(rng, pool, wild):
@@ -129,3 +190,104 @@ def random_path(rng, names, sep, wild, maxlen):
     elif r < 0.3:
         p = p + sep
     return p
+
+
+def casetable_case():
+    """every character of the alphabet against every character, through the library: a flat tree whose children are named by the single
+    characters; relaxed `glob(root, x, ignorecase)` returns the children matching x under re.IGNORECASE, `get` the first child equal
+    under str.upper()."""
+    chars = list("kKsSiIaAzZ09_") + sorted(CASE_TABLE)
+    t = [0, [[i + 1, []] for i in range(len(chars))]]
+    names = [[0, "root"]] + [[i + 1, ch] for i, ch in enumerate(chars)]
+    qs = []
+    for ch in chars:
+        for ic in (True, False):
+            qs.append({"fn": "glob", "start": 0, "path": ch, "ignorecase": ic, "relax": False})
+            qs.append({"fn": "glob", "start": 0, "path": ch, "ignorecase": ic, "relax": True})
+            qs.append({"fn": "get", "start": 0, "path": ch, "ignorecase": ic, "relax": True})
+    return {"fam": "resolve", "tree": t, "names": names, "sep": "/", "queries": qs, "unique": False, "typed": [], "cls": None,
+            "casetable": True}
+
+
+# ---- model-free cases over all of Unicode (families/f_unires.py) ----
+UNI_POOL = ["stra\u00dfe", "strasse", "STRASSE", "Stra\u00dfe", "\u00df", "ss", "SS", "\u1e9e", "\ufb01le", "file", "FILE", "fi", "\ufb01",
+            "\u0395\u039b\u039b\u0391\u03a3", "\u03b5\u03bb\u03bb\u03b1\u03c2", "\u03b5\u03bb\u03bb\u03b1\u03c3", "\u0391\u03a3", "a\u03a3", "a\u03c3", "a\u03c2",
+            "\u03a3", "\u03c3", "\u03c2", "\u0130", "i", "I", "\u0131", "i\u0307", "K", "k", "\u212a", "\u212b", "\u00e5", "\u00c5", "\u2126", "\u03c9", "\u03a9",
+            "\u00b5", "\u03bc", "\u01c5", "\u01c6", "\u01c4", "\u0149", "\u02bcN", "\u00e9", "\u00c9", "e\u0301", "\u01f0", "\u0390", "\u0587",
+            "\u039d\u0391\u039e\u039f\u03a3", "\u03a0\u0391\u03a1\u039f\u03a3", "ab", "Ab", "x1", "\u4e2d", "\U0001d400", "\u10d0", "\u1c90"]
+UNI_SEPS = ["/", "/", ";", "::", ":", "'", "\u00b7", "^", "-", "|"]
+
+
+def _folds(nm):
+    return (nm, nm.upper(), nm.lower(), nm.casefold())
+
+
+def uni_names(rng, t, sep, unique):
+    """names over UNI_POOL; `unique`: siblings pairwise different case-sensitively and under upper(), lower() and casefold()"""
+    pool = [n for n in UNI_POOL if sep not in n and not any(ch in n for ch in sep)]
+    names = {t[0]: rng.choice(pool)}
+
+    def walk(node):
+        used = [set(), set(), set(), set()]
+        for c in node[1]:
+            for _ in range(80):
+                nm = rng.choice(pool)
+                f = _folds(nm)
+                if not unique or not any(f[i] in used[i] for i in range(4)):
+                    break
+            else:
+                nm = "u%d" % c[0]
+                f = _folds(nm)
+            for i in range(4):
+                used[i].add(f[i])
+            names[c[0]] = nm
+            walk(c)
+    walk(t)
+    return [[l, names[l]] for l in gen.tree_labels(t)]
+
+
+def unires_roundtrip(rng, t):
+    sep = rng.choice(UNI_SEPS)
+    names = uni_names(rng, t, sep, True)
+    labs = gen.tree_labels(t)
+    qs = []
+    pairs = [(m, n) for m in labs for n in labs]
+    rng.shuffle(pairs)
+    for m, n in pairs[:24]:
+        for ic in (True, False):
+            relax = rng.random() < 0.5
+            qs.append({"start": m, "path": abs_path(t, names, sep, n), "ignorecase": ic, "relax": relax, "expect": n})
+            qs.append({"start": m, "path": rel_path(t, names, sep, m, n), "ignorecase": ic, "relax": relax, "expect": n})
+    return {"fam": "unires", "what": "roundtrip", "tree": t, "names": names, "sep": sep, "queries": qs}
+
+
+def unires_history(rng, t):
+    sep = rng.choice(["/", "/", ";", "::"])
+    unique = rng.random() < 0.5
+    names = uni_names(rng, t, sep, unique)
+    labs = gen.tree_labels(t)
+    pool = [v for _, v in names] + [n for n in UNI_POOL if sep not in n]
+    qs = []
+    for _ in range(rng.randrange(4, 10)):
+        parts = []
+        for _ in range(rng.randrange(1, 4)):
+            r = rng.random()
+            nm = rng.choice(pool)
+            if r < 0.55:
+                parts.append(rng.choice([nm, nm, nm.upper(), nm.lower(), nm.swapcase(), nm.casefold()]))
+            elif r < 0.7:
+                parts.append(rng.choice(["*", "**", "?", "??"]))
+            elif r < 0.85:
+                i = rng.randrange(len(nm) + 1)
+                parts.append(nm[:i] + rng.choice(["*", "?"]) + nm[i + 1:])
+            else:
+                parts.append(rng.choice(["..", ".", ""]))
+        parts = [p for p in parts if sep not in p] or ["*"]
+        p = sep.join(parts)
+        if rng.random() < 0.2:
+            p = sep + names[0][1] + sep + p
+        start = rng.choice(labs)
+        ic = rng.random() < 0.75
+        qs.append({"start": start, "path": p, "ignorecase": ic, "relax": False})
+        qs.append({"start": start, "path": p, "ignorecase": ic, "relax": True})
+    return {"fam": "unires", "what": "history", "tree": t, "names": names, "sep": sep, "queries": qs, "unique": False}
